@@ -75,8 +75,9 @@ def measures_table(rep, n):
     """getPitchMeasures on n generic pitch values: (mean, max, min, range, population variance, deviation) are the
     textbook expressions over the values that remain after the optional zero removal and median filtering; an empty
     remainder gives six zeros.  Squares and products are polynomials over the symbols, the root is an uninterpreted
-    function of its argument, so the comparison is between expressions, not numbers.  The property does not fix the
-    order of zero removal and filtering, nor the padding mode: any of them is accepted."""
+    function of its argument, so the comparison is between expressions, not numbers.  With both options the
+    definition is the one the pinned tree implements and every caller relies on: median-filter the whole track with
+    edge padding, then drop the unvoiced (zero) frames, then measure."""
     from fractions import Fraction
 
     idx = common.ctx()
@@ -163,12 +164,10 @@ def measures_table(rep, n):
                     if window is None:
                         cands.append(voiced(xs) if drop_zero else list(xs))
                     else:
-                        for pad in (True, False):
-                            for first in ((True, False) if drop_zero else (False,)):
-                                src = voiced(xs) if first else list(xs)
-                                I2 = Interp(idx, st, overrides=default_overrides())
-                                f = [I2.num(v) for v in I2.iterate(I2.call_function(med, [Lst(list(src)), Lin.num(window), pad], {}))]
-                                cands.append(voiced(f) if drop_zero and not first else f)
+                        # the pinned pipeline: smooth the whole track (edge padding), then drop the unvoiced frames
+                        I2 = Interp(idx, st, overrides=default_overrides())
+                        f = [I2.num(v) for v in I2.iterate(I2.call_function(med, [Lst(list(xs)), Lin.num(window), True], {}))]
+                        cands.append(voiced(f) if drop_zero else f)
                     verdicts = [judge(I, items, expected(I, c), c) for c in cands]
                 except PyRaise as e:
                     out.append((mode, False, "raises %s" % e.name, None))
@@ -179,7 +178,7 @@ def measures_table(rep, n):
                 if any(v[0] == "same" for v in verdicts):
                     out.append((mode, True, "", None))
                 elif all(v[0] == "differ" for v in verdicts):
-                    out.append((mode, False, verdicts[0][1] + (" (and no other order of zero removal / filtering / padding gives it either)" if len(verdicts) > 1 else ""), None))
+                    out.append((mode, False, verdicts[0][1], None))
                 else:
                     out.append((mode, False, "", [v[1] for v in verdicts if v[0] == "unknown"][0]))
         return out
@@ -504,12 +503,11 @@ def rows_table(rep):
 def run(rep, tier):
     rep.rule("M-median", "abstract interpretation of medianFilter/_stepFilter on series of generic values (every weak order, lengths 0-4, thorough 5) for window sizes 0-8 and both padding modes against the textbook definition; result has the input's length")
     rep.rule("M-rows", "filterTimeSeriesData keeps the number and order of rows and every column except the filtered one")
-    rep.rule("M-measures", "abstract interpretation of getPitchMeasures on 0-3 generic pitch values (0 = unvoiced, otherwise >= 1; thorough 4) with and without zero removal, without and with a median window of 3: the six results are, as polynomials over the values (squares and products expanded, the root an uninterpreted function of its argument), the mean, max, min, max - min, population variance and its root of the kept values; six zeros when none is kept")
+    rep.rule("M-measures", "abstract interpretation of getPitchMeasures on 0-3 generic pitch values (0 = unvoiced, otherwise >= 1; thorough 4) with and without zero removal, without and with a median window of 3: the six results are, as polynomials over the values (squares and products expanded, the root an uninterpreted function of its argument), the mean, max, min, max - min, population variance and its root of the kept values; six zeros when none is kept; with both options: median filter (edge padding) over the whole track first, zero removal second")
     rep.rule("M-jumps", "abstract interpretation of detectPitchErrors on 3 generic (time, pitch) rows x thresholds 0.5, 0.7, 1: a row is reported, at its own time and in order, iff the previous pitch is below threshold x current or above current / threshold (jumps of exactly the ratio: either answer); thresholds outside [0, 1] are rejected")
     rep.rule("M-znorm", "abstract interpretation of znormalizeData and znormalizeSpeakerData (filterZeroValues=False) on 2-3 generic values (thorough 4), every non-constant weak order: n results; their sum is 0 as a polynomial; their sample variance times deviation^2 equals deviation^2 (sqrt and reciprocal are uninterpreted functions with the rewrite rules sqrt(p)*sqrt(p) = p and t*(1/t) = 1); (z_i - z_j) * deviation = x_i - x_j (rank order).  Where the forms differ a refutation is an assignment of the values, consistent with the case, at which the two closed-form expressions differ; forms that differ but agree at every sample are reported as undecided, never as a violation")
     rep.rule("M-rms", "abstract interpretation of rms on 1-3 generic values: the result is sqrt(mean of squares) as an expression")
     rep.not_decided.append("znormalizeSpeakerData with filterZeroValues=True and znormWindowFilter (the property does not define what zero filtering means for them)")
-    rep.not_decided.append("getPitchMeasures: which of zero removal and median filtering comes first, and the padding mode of the filter (the property does not fix them; M-measures accepts each)")
     rep.rule("L-listing", "interpretation of loadTimeSeriesData on exemplar listings in a virtual file (header / no header, undefined markers in each column, blank lines, LF / CRLF) x undefinedValue None, -1.5, 0.0, a symbolic number: every row comes back in order as the doubles its numerals denote, rows with an undefined value skipped or substituted as requested (exemplar-based: a finite sample of listings, not every listing)")
     for n in ([0, 1, 2, 3, 4] if tier == "quick" else [0, 1, 2, 3, 4, 5]):
         median_table(rep, n, range(0, 9))
